@@ -434,6 +434,11 @@ fn dfs(setup: &Setup, op: &Op, pages: &[Page<'static>], first: u16, poll_bound: 
         if prelude.is_some() {
             rep.count("conversations_with_a_reused_sign_object");
         }
+        let parting = sess.finish();
+        if !parting.is_empty() {
+            let mon = if invariants_mode { "trace_invariants" } else { "lockstep_refctl" };
+            rep.violation(mon, "messages_sent_when_the_sign_object_is_dropped", &sig(&c, setup.ty), format!("{} ({}): dropping the Sign object after the call sent {}", c.op.name(), TYPES[setup.ty].name, parting.iter().map(|m| m.show()).collect::<Vec<_>>().join(" ")), conv_json(&c, setup.ty, pages.len()));
+        }
         if rep.violations.len() > violations_before {
             REFUTATIONS.fetch_add(1, std::sync::atomic::Ordering::Relaxed);
         }
